@@ -138,6 +138,19 @@ class LifeWorld(ConnWorld):
         self.delivered: list[Any] = []  # probe subscriber calls: (time, type name, state at delivery)
         self.on_ret: Callable[[str], None] | None = None
         self.ref_closed = False
+        self.chunks: list[dict[str, Any]] = []  # one entry per data chunk pushed (atoms, armed fault, state at recv)
+        self._recv_idx = 0
+        self.net.on_socket = self._hook_socket
+
+    def _hook_socket(self, s: Any) -> None:
+        s.on_recv = self._on_recv
+
+    def _on_recv(self, s: Any, item: Any) -> None:
+        if isinstance(item, (bytes, bytearray)) and len(item) > 0:
+            # chunks are received in the order they were pushed
+            pend = [c for c in self.chunks if c["recv_state"] is None]
+            if pend:
+                pend[0]["recv_state"] = self.state()
 
     def _on_stop(self, expected: bool) -> None:
         super()._on_stop(expected)
@@ -251,6 +264,27 @@ class LifeHarness:
         if w.outcome("finish") != "ok":
             raise HarnessError(f"seed {s}: finish = {w.results.get('finish')}")
         if s == "connected":
+            return w
+        if s == "pong_due":
+            # keepalive pings unanswered; the next timer is the pong deadline
+            while True:
+                nt = w.loop.next_timer_at()
+                names = [fingerprint.cb_name(h._callback) for h in w.loop.live_timers()]
+                if nt is None:
+                    raise HarnessError("pong_due: no timers")
+                first = w.loop.live_timers()[0]
+                if "pong" in str(fingerprint.cb_name(first._callback)):
+                    return w
+                w.loop.advance_to(nt)
+                w.drain()
+                if w.loop.time() > 1000 + 40 * self.keepalive:
+                    raise HarnessError(f"pong_due: pong timer never first: {names}")
+        if s == "req_pending":
+            req = mk("DeviceInfoRequest")
+            rtype = getattr(env.pb(), "DeviceInfoResponse")
+            w.spawn("req", lambda: w.conn.send_message_await_response(req, rtype))
+            w.mon()
+            w.drain()
             return w
         if s == "disc_pending":
             w.spawn("disc", w.conn.disconnect)
@@ -379,6 +413,7 @@ class LifeHarness:
                 data += ATOMS[a](w)
                 if a in ("NH", "NHELLO", "NHE"):
                     w._nhello_sent = True  # type: ignore[attr-defined]
+            w.chunks.append({"atoms": label[2:].split("+"), "armed": w.armed, "recv_state": None})
             w.io_chunk(w.sock, data)
         elif label == "eof":
             kind = "io"
